@@ -387,9 +387,12 @@ impl ASN1Type {
                                 .for_each(|(index, member)| {
                                     if index < linked_seq.extensible.unwrap_or(usize::MAX) {
                                         if let Some(index_of_first_ext) = s.extensible {
+                                            // the copied components join the extension root
+                                            s.members.insert(index_of_first_ext, member.clone());
                                             s.extensible = Some(index_of_first_ext + 1)
+                                        } else {
+                                            s.members.push(member.clone());
                                         }
-                                        s.members.push(member.clone());
                                     }
                                 });
                             member_linking = true;
